@@ -900,7 +900,9 @@ func c16FileEval(e *Env, c c16FileCase) {
 	}
 	got, gerr := c16FileRun(e, c.Chords, c.Attrs, extra...)
 	if werr != "" {
-		panic("C16 harness: the plain dictionary is refused: " + werr)
+		// a consistent dictionary in its plainest spelling: refusing it is the violation
+		e.R.Fail(ev.Fail{Class: "C16/dictionary-file-spelling/plain-refused", Msg: "the plain dictionary files (3 chords, 2 attributes, extends by display symbol and by name) are refused: " + werr, Kind: "dict-file", Case: c})
+		return
 	}
 	if gerr != "" || got != want {
 		msg := gerr
